@@ -37,7 +37,7 @@ MANIFEST = {
 }
 BUDGET = {"quick": {"shards": 16, "examples": 75, "wall": 200},
           "thorough": {"shards": 16, "examples": 4000, "wall": 1500}}
-VALUE_KINDS = ["int", "float", "text", "bool", "datetime", "nullable", "bytes", "json"]
+VALUE_KINDS = ["int", "float", "text", "bool", "datetime", "nullable", "bytes", "json", "category"]
 
 KINDS = ["bad_dtype", "nonstr_name", "dup_names", "null_in_required", "surrogate_text", "bytes_in_text", "text_in_int", "nonjson_in_json",
          "missing_column", "extra_column", "diff_scheme", "diff_partition", "unknown_codec", "unknown_codec_col",
@@ -63,7 +63,7 @@ def strategy_(draw, thorough):
     if kind == "null_in_required":
         # the base must be writable as non-nullable: no missing cells in object columns
         for c in fr0["cols"]:
-            if c["kind"] in ("text", "bytes", "nullable", "float", "datetime", "json"):
+            if c["kind"] in ("text", "bytes", "nullable", "float", "datetime", "json", "category"):
                 c["null"] = {"pat": "none", "mask": []}
     if fr0["n"] >= 2:
         opts["rgo"] = draw(st.sampled_from([None, 1, 2, max(1, fr0["n"] // 2)]))
@@ -133,9 +133,14 @@ def prepare_op(case, df1, path, other):
         names[names.index(c["name"])] = vcols[0]["name"]
         df.columns = names
     elif kind == "null_in_required":
-        c = _pick([c for c in vcols if c["kind"] in ("text", "bytes") and c.get("sub") != "str"], case["colpos"])
-        col = df[c["name"]].astype(object).copy()
-        col.iloc[row] = None
+        c = _pick([c for c in vcols if (c["kind"] in ("text", "bytes") and c.get("sub") != "str") or c["kind"] == "category"], case["colpos"])
+        if c["kind"] == "category":
+            # (floats and times have NaN / NaT as sentinels; a dictionary index has none)
+            col = df[c["name"]].copy()
+            col.iloc[row] = np.nan
+        else:
+            col = df[c["name"]].astype(object).copy()
+            col.iloc[row] = None
         df[c["name"]] = col
     elif kind == "surrogate_text":
         c = _pick([c for c in vcols if c["kind"] == "text"], case["colpos"])
